@@ -1,5 +1,6 @@
 """Verdict bookkeeping: rule instances, violations, known findings, evidence."""
 import json
+import re
 import os
 import sys
 import time
@@ -61,9 +62,15 @@ class Run:
             return
         self.violations.append({"rule": rule, "key": full, "what": what, "loc": loc, "detail": detail})
 
+    _OPAQUE = re.compile(r"<opaque>|\('opaque'|-> opaque\b|= opaque\b|\bopaque not foldable|gives opaque\b|is opaque\b")
+
     def check(self, cond, rule, key, what_ok, what_bad=None, loc=None, detail=None, nontrivial=True):
         if cond:
             self.ok(rule, key, what_ok, loc, nontrivial, detail)
+        elif what_bad and self._OPAQUE.search(what_bad):
+            # the value the rule compares did not fold (rules.common.fold returned 'opaque'): three-valued logic, the
+            # instance is not decided and is never a violation
+            self.ok(rule, key, "not decided: a function did not fold to a value (%s)" % what_bad[:160], loc, False, detail)
         else:
             self.bad(rule, key, what_bad or ("NOT: " + what_ok), loc, detail)
         return bool(cond)
